@@ -26,7 +26,7 @@ TRUSTED = [
 ]
 
 N_QUICK = (4, 3)       # histories per reaction: correspondence, search (11 reactions)
-N_THOROUGH = (36, 24)
+N_THOROUGH = (90, 50)
 
 
 def _run(chk, script, n, label):
